@@ -66,7 +66,7 @@ pub fn generate(prop: &str, run_seed: u64, _index: u64, tier: Tier) -> Trace {
     let init = rc.below(8);
     t.set_param("init", if init < 4 { 0 } else { init - 4 });
     t.set_param("init_size", *rc.pick(&[0u64, 1, 17, 64, 100, 500, 512, 1000, 4096, 5000, 20_000]));
-    t.set_param("end", rc.below(3));
+    t.set_param("end", if prop == "C18" { rc.below(6) } else { *rc.pick(&[0u64, 1, 2, 0, 1, 2, 3, 4]) });
 
     // fault plan
     let faulty = match prop {
